@@ -50,6 +50,19 @@ def _gen_plan(seed, tier):
             plan['ops'].append({'op': 'step', 'n': 1, key: {'kind': 'Monitor', 'file': '%s%d.log' % (key[:4], _)}})
             plan['ops'].append({'op': 'step', 'n': r6.randint(1, 3)})
         return plan
+    r7 = sub_rng(seed, 'plan.c04.sigint')
+    if r7.random() < 0.08:
+        # Ctrl-C while an iteration is in progress, with mystic's signal handler enabled and the user answering at its prompt ('exit'
+        # ends the run after the iteration in progress; 'cont'/'sol'/'call' carry on): counters, monitors and callbacks of the run that
+        # was stopped this way are those of any stopped run
+        plan = solverplan.gen_solver_plan(seed, tier, ID, dict(RETRY_KNOBS, solvers=['Powell', 'Powell', 'NM', 'DE', 'DE2'], p_handler=1.0, p_solve=0.0,
+                                                                p_term=0.3, p_limits=0.3, p_midrun_set=0.0, max_ops=1))
+        plan['ops'] = [o for o in plan['ops'] if o['op'] == 'set']
+        plan['ops'].append({'op': 'solve'})      # (the handler is armed by Solve, not by Step)
+        if r7.random() < 0.4: plan['ops'] += [{'op': 'set', 'what': 'limits', 'arg': [r7.choice([3, 8]), None, True]}, {'op': 'solve'}]
+        plan['faults'] = [{'at': 'cost#%d' % a, 'kind': 'interrupt', 'tty': r7.choice([['exit'], ['exit'], ['exit'], ['cont'], ['sol', 'exit'], ['call', 'cont']])}
+                          for a in sorted(set(r7.randint(2, 120) for _ in range(r7.choice([1, 1, 2]))))]
+        return plan
     plan = solverplan.gen_solver_plan(seed, tier, ID, KNOBS)
     # fault-injecting configuration (reported separately in the evidence: faults_fired): an ENOSPC / EIO on a write
     # of a LoggingMonitor file.  The plan ends where the error reaches the caller.
@@ -123,6 +136,11 @@ _valid0 = valid
 _simplify0 = simplify
 def valid(plan):
     if plan.get('kind') == 'wrapper': return True
+    # (an interrupt with no handler installed is a KeyboardInterrupt that kills the user's program in mid-iteration: not a history of C04)
+    if any(f.get('kind') == 'interrupt' for f in plan.get('faults', [])):
+        first = next((i for i, o in enumerate(plan['ops']) if o['op'] in ('step', 'solve')), len(plan['ops']))
+        if not any(o['op'] == 'set' and o['what'] == 'handler' and o.get('arg') for o in plan['ops'][:first]): return False
+        if any(o['op'] == 'step' for o in plan['ops']): return False       # (the handler is armed by Solve only)
     return True if _valid0 is None else _valid0(plan)
 def simplify(plan):
     if plan.get('kind') == 'wrapper': return _wr.simplify_wrapper_plan(plan)
